@@ -101,6 +101,12 @@ static Index IntegerList_dim(const struct IntegerList *self)
   return (Index)((OFF(self->e) - OFF(self->m)) / (long)sizeof(Index));
 }
 
+/* Precondition of an operation of the code under check: reported (assert) and then the path ends (assume), so that an
+   out-of-range access is ONE failed obligation and not a cascade of garbage values (which would also trip the unwinding
+   assertions and turn the verdict into "undecided").  Asserts first: cannot hide behaviour. */
+#define GV_STOP_UNLESS(c, msg) do { __CPROVER_assert(c, msg); __CPROVER_assume(c); } while (0)
+#define GV_DEREF(p) GV_STOP_UNLESS(__CPROVER_r_ok((p), sizeof(*(p))), "iterator is dereferenced inside its list")
+
 /* iterator inequality inside one list: the same comparison on offsets (constant-folded by symbolic execution) */
 static bool gv_ptr_ne(const void *p, const void *q)
 {
@@ -129,8 +135,10 @@ GV_CANARY("IntegerList_set_zero entry");
 GV_CANARY("IntegerList_cbegin entry");
 //@ entry IntegerList_get
 GV_CANARY("IntegerList_get entry");
+GV_STOP_UNLESS(0 <= i && i < IntegerList_dim(self), "IntegerList::operator()(i) const: 0 <= i < dim()");
 //@ entry IntegerList_at
 GV_CANARY("IntegerList_at entry");
+GV_STOP_UNLESS(0 <= i && i < IntegerList_dim(self), "IntegerList::operator()(i): 0 <= i < dim()");
 //@ entry Adjacency_nodes
 GV_CANARY("Adjacency_nodes entry");
 //@ entry Adjacency_degree
@@ -158,6 +166,16 @@ GV_CANARY("ReverseCuthillMcKee_algorithm entry");
 //@ entry ReverseCuthillMcKee_ctor1
 GV_CANARY("ReverseCuthillMcKee_ctor1 entry");
 GV_INIT_SparseMatrixOrdering_ctor0(self);      /* base-class constructor SparseMatrixOrdering() (generated from the real text) */
+//@ at SparseMatrixGraph_connected deref
+GV_DEREF(b);
+//@ at RootedLevelStructure_root deref
+GV_DEREF(i);
+//@ at PseudoPeripheralNode_call deref1
+GV_DEREF(b);
+//@ at PseudoPeripheralNode_call deref2
+GV_DEREF(b);
+//@ at ReverseCuthillMcKee_algorithm deref
+GV_DEREF(b);
 //@ entry SparseMatrix_rows
 GV_CANARY("SparseMatrix_rows entry");
 //@ entry SparseMatrix_columns
@@ -344,17 +362,35 @@ static void run_rcm(Index n, unsigned bits, bool rev)
     }
 }
 
+/* The enumeration is cut into slices (one check each) by -D: nodes GV_NLO..GV_NHI, edge sets GV_BLO..GV_BHI (clipped to
+   the 2^(n(n-1)/2) sets that exist), row order GV_REV (0 ascending, 1 descending, 2 both): symbolic execution slows down
+   more than linearly with the number of structures executed in one run (measured). */
+#ifndef GV_NLO
+#define GV_NLO 0
+#endif
+#ifndef GV_NHI
+#define GV_NHI GV_NMAX
+#endif
+#ifndef GV_BLO
+#define GV_BLO 0u
+#endif
+#ifndef GV_BHI
+#define GV_BHI 63u
+#endif
+#ifndef GV_REV
+#define GV_REV 2
+#endif
 void h_rcm(void)
 {
   Index n_s;
   unsigned b_s;
   bool r_s;
-  __CPROVER_assume(0 <= n_s && n_s <= GV_NMAX);
-  for (Index n = 0; n <= GV_NMAX; n++)
-    for (unsigned bits = 0; bits < (1u << (n * (n - 1) / 2)); bits++)
+  __CPROVER_assume(GV_NLO <= n_s && n_s <= GV_NHI);
+  for (Index n = GV_NLO; n <= GV_NHI; n++)
+    for (unsigned bits = GV_BLO; bits <= GV_BHI && bits < (1u << (n * (n - 1) / 2)); bits++)
       if (n == n_s && bits == b_s)
         {
-          if (r_s) run_rcm(n, bits, 1); else run_rcm(n, bits, 0);
+          if (GV_REV == 2 ? r_s : GV_REV) run_rcm(n, bits, 1); else run_rcm(n, bits, 0);
         }
   GV_CANARY("h_rcm end");
 }
